@@ -91,7 +91,15 @@ impl Scenario for C18 {
             let c = w.call(
                 &iw.its,
                 "deploy_interchain_token",
-                &[iw.users[0].to_val(), to_val(env, &sbytes(&SALTS[i])), to_val(env, &metadata_scval(n, s, *d)), w.v(10i128), to_val(env, &ScVal::Void)],
+                // the third token has the deployer as designated minter (no initial supply): the remote
+                // deployment must still announce an empty minter
+                &[
+                    iw.users[0].to_val(),
+                    to_val(env, &sbytes(&SALTS[i])),
+                    to_val(env, &metadata_scval(n, s, *d)),
+                    w.v(if i == 2 { 0i128 } else { 10 }),
+                    if i == 2 { iw.users[0].to_val() } else { to_val(env, &ScVal::Void) },
+                ],
                 Auth::By(&u0),
             );
             assert!(c.ok, "setup deploy {}: {}", i, c.err);
@@ -309,9 +317,10 @@ impl Scenario for C18 {
             out.expect(q == Some(m.gas[i]), "probe.gas-balance", || format!("holder {}: {:?} vs {}", i, q, m.gas[i]));
         }
         // no funds other than the gas payment ever move
+        let zero_supply_token = addr_from_sc(w, &iw.token_address_of(&interchain_token_id("stellar", &iw.sc(&iw.users[0]), &SALTS[2])));
         let expect_bal = |t: &Address, h: &Address| -> i128 {
             if *t == iw.assets[0] && *h == iw.users[0] { 9 }
-            else if *t != iw.assets[0] && *t != iw.assets[1] && *h == iw.users[0] { 10 }
+            else if *t != iw.assets[0] && *t != iw.assets[1] && *h == iw.users[0] { if *t == zero_supply_token { 0 } else { 10 } }
             else { 0 }
         };
         for (t, h) in &ctx.balance_watch {
